@@ -19,7 +19,7 @@ def dly(typ, reactants=(), products=(), **kw):
 
 
 def delay_variants(tier):
-    fixed = [0.0, 0.0025, 0.1, 0.3, 0.6, 5.0] if tier == 'thorough' else [0.0, 0.0025, 0.3, 0.6, 5.0]
+    fixed = [0.0, 0.0025, 0.1, 0.3, 0.6, 1.5, 5.0] if tier == 'thorough' else [0.0, 0.0025, 0.3, 0.6, 1.5, 5.0]   # 1.5: one slot beyond the 5-slot horizon
     out = [dict(type='fixed', delay=v) for v in fixed]
     out += [dict(type='gaussian', mean=0.4, std=0.3)]
     ks = [1.0, 2.5, 4.0] if tier == 'thorough' else [2.5]
